@@ -31,6 +31,14 @@ def gen_c01(rnd, sid):
                 scripts.append(acts)
             handlers.append(dict(cls="U%d" % c, hid=len(handlers), data=None, scripts=scripts))
     init = [enq() for _ in range(rnd.choice([4, 5, 8, 8, 12, 20, 40]))]
+    if rnd.random() < 0.3:
+        # a reusable signal object ("tick") enqueued again while earlier occurrences of it may still be pending: from outside and from handlers
+        ticks = rnd.sample(init, min(len(init), rnd.randint(1, 2)))
+        for t in ticks:
+            for _ in range(rnd.randint(1, 3)): init.insert(rnd.randrange(init.index(t) + 1, len(init) + 1), list(t))
+            for h in handlers:
+                for sc in h["scripts"]:
+                    if rnd.random() < 0.15: sc.insert(rnd.randrange(len(sc) + 1), list(t))
     return dict(op="machine", mode="c01", width=80, screens=[], handlers=handlers, init=init, stdin=[], quit_cb=None, quit_screen=None,
                 exc_handler=False, run_empty=True, deliver_at=[])
 
@@ -75,12 +83,14 @@ def monitor(case, obs):
             pending.setdefault(ctx["lvl"], []).append([sid, prio, arrival]); where[sid] = ctx["lvl"]
         if ev[0] == "H":
             sid = ev[2]
-            if sid in ignored or sid in seen or sid not in where: continue
-            seen.add(sid)
-            lvl = where[sid]
-            if lvl not in pending: continue
-            rec = next((p for p in pending[lvl] if p[0] == sid), None)
-            if rec is None: continue
+            if sid in ignored or sid not in where: continue
+            # a dispatch begins with the first handler registered for the class (the same signal object may be enqueued, and so dispatched, several times)
+            first = (x.cls_handlers.get(x.hcls.get(ev[1])) or [None])[0]
+            if ev[1] != first: continue
+            recs = sorted((p for l in pending for p in pending[l] if p[0] == sid), key=lambda p: p[2])
+            if not recs: continue
+            here = [p for p in recs if p in pending.get(ctx.get("lvl"), [])]          # an occurrence pending in the active level is the one being dispatched
+            rec = (here or recs)[0]; lvl = next(l for l in pending if any(p is rec for p in pending[l]))
             if ctx.get("lvl") != lvl:
                 return "signal %d was enqueued into level %r but dispatched while level %r was active" % (sid, lvl, ctx.get("lvl"))
             for p in pending[lvl]:
